@@ -70,6 +70,21 @@ fn main() {
             let f = args.get(2).cloned().unwrap_or_default();
             std::process::exit(replay(&f));
         }
+        "c07extra" => {
+            // the CRC stage of C07 executed by this build (used for the crc32c-feature build)
+            harness::install_panic_hook(false);
+            let thorough = args.get(2).map(|s| s == "thorough").unwrap_or(false);
+            let sd: u64 = args.get(3).and_then(|s| s.parse().ok()).unwrap_or(0);
+            let secs: u64 = args.get(4).and_then(|s| s.parse().ok()).unwrap_or(60);
+            let r = c07::extra_local(thorough, sd, Instant::now() + Duration::from_secs(secs));
+            for v in &r.violations {
+                println!("VIOL\t{}\t{}", v.sig, v.detail.replace('\n', " "));
+            }
+            for m in &r.machinery_errors {
+                println!("MACH\t{}", m.replace('\n', " "));
+            }
+            println!("STAT\t{}", r.json.to_string_compact());
+        }
         "xmldump" => {
             let dir = args.get(2).cloned().unwrap_or_default();
             std::process::exit(xmldump(&dir));
